@@ -80,6 +80,8 @@ type Plan struct {
 	SharedPool bool `json:"shared_pool,omitempty"`
 	// Checks selects oracle families beyond the always-on ones.
 	Checks map[string]bool `json:"checks,omitempty"`
+	// C08: client-level case (cache transparency).
+	C08 *C08Case `json:"c08,omitempty"`
 	// C07: client-level case (response corruption).
 	C07 *C07Case `json:"c07,omitempty"`
 	// Script injects exactly these faults (by ordinal of the seam event in the
